@@ -298,7 +298,8 @@ def _discharge(ob, timeout_s=None, want_model=True):
 
     # portfolio: short z3, cvc5, then z3 at the full budget with two configurations, then z3 4.8
     short = max(2.0, timeout_s / 6.0)
-    done = (qf_try(short) or z3_try("z3-api", {}, min(short, 2.0)) or split_try(short) or z3_try("z3-api", {}, short) or inst_try(timeout_s)
+    # (the first three steps are those of the earlier sessions, unchanged; the simplified / case-split retry comes after them)
+    done = (qf_try(short) or z3_try("z3-api", {}, short) or inst_try(timeout_s) or split_try(short)
             or cli_try("cvc5-cli", ["/usr/bin/cvc5", "--tlimit=%d" % int(timeout_s * 1000)], timeout_s)
             or z3_try("z3-api", {}, timeout_s)
             or z3_try("z3-api/seed7", {"random_seed": 7, "smt.arith.solver": 2}, timeout_s)
